@@ -290,7 +290,7 @@ def main(tier, seed):
     cov["rule"] = ("part 1: decoder trees over stub buses (1-4 subordinates of 1-3 address bits, orders, implicit/"
                    "explicit-descending/align_to placement, alignment 0-2, named/anonymous, nested 2 deep), all inputs; "
                    "part 2: trees over real multiplexers vs RefCSR at all_resources() addresses, full BFS per cone")
-    return finish(PID, tier, seed, "model_checking", cov, ASSUMPTIONS, t0, results)
+    return finish(PID, tier, seed, "model_checking", cov, ASSUMPTIONS, t0, results, min_explored=int(0.9 * len(results)))
 
 
 ASSUMPTIONS = [
